@@ -103,11 +103,21 @@ type svcCtx struct {
 func (g *G) interp(s string, c *svcCtx) *Y {
 	if len(c.vars) > 0 && g.on("interpolation") && g.chance("interp", 1, 4) {
 		v := g.pick("interp-var", c.vars)
-		switch g.n("interp-form", 3) {
+		switch g.n("interp-form", 8) {
 		case 0:
 			return Str("${" + v + "}")
 		case 1:
 			return Str("${" + v + ":-" + s + "}")
+		case 2:
+			return Str("${" + v + "-" + s + "}")
+		case 3:
+			return Str("${" + v + ":?must be set}")
+		case 4:
+			return Str("${" + v + "?must be set}")
+		case 5:
+			return Str(s + "${" + v + ":+-alt}")
+		case 6:
+			return Str(s + "${UNSET_X+-alt}${UNSET_Y:-" + "-dflt}")
 		default:
 			return Str(s + "-$" + v)
 		}
@@ -765,6 +775,10 @@ func (g *G) topResources(doc *Y, c *svcCtx, tag string, dir string) {
 // GenLayout generates a valid-by-construction multi-file project layout.
 func GenLayout(r *zsimrt.Run) *Layout { return GenLayoutForced(r, nil) }
 
+// genDirTag is appended to directory names; the C02 canaries use their own so that loading them first
+// does not warm (and thereby immunise) process-level state keyed by directory for the scenarios proper.
+var genDirTag = ""
+
 // GenLayoutForced is GenLayout with some swarm features forced on or off.
 func GenLayoutForced(r *zsimrt.Run, forced map[string]bool) *Layout {
 	L := &Layout{Files: map[string]string{}, Env: map[string]string{}, Home: "/home/user", Entry: "loader"}
@@ -775,7 +789,7 @@ func GenLayoutForced(r *zsimrt.Run, forced map[string]bool) *Layout {
 			L.Features = append(L.Features, k)
 		}
 	}
-	root := g.pick("root", []string{"/proj", "/work/My.Project", "/srv/app_1"})
+	root := g.pick("root", []string{"/proj", "/work/My.Project", "/srv/app_1"}) + genDirTag
 	L.WorkingDir = root
 	L.Cwd = root
 	if g.chance("cwd-elsewhere", 1, 4) {
@@ -1007,7 +1021,7 @@ func (g *G) addExtends(doc, svcs *Y, c *svcCtx, root string, density int) {
 	type baseRef struct{ file, svc string }
 	var bases []baseRef
 	for f := 0; f < nb; f++ {
-		dir := fmt.Sprintf("%s/base%d", root, f)
+		dir := fmt.Sprintf("%s/base%s%d", root, genDirTag, f)
 		p := fmt.Sprintf("%s/base_f%d.yaml", dir, f)
 		bdoc := Map()
 		bs := Map()
